@@ -10,6 +10,22 @@ checks = {
          "Every H1 crash point (7 in submitBlock x both commit paths, 10 during genesis initialisation, 3 inside recoverStore as a second crash) is enumerated for every block of every sampled history; after restart the node's three databases, heights, roots, events and proofs must equal an uncrashed twin's, and again after finishing the chain. Exhaustive over crash points per history, sampled over histories.",
          "Process-crash model (completed LevelDB batch / file write survives; nothing poly buffers does); LevelDB's own atomic batches are trusted; histories are sampled.", "5 C12"),
 }
+GOVNOTE = "Histories are sampled, not enumerated. Block producer is a stub that assembles/seals blocks as VBFT's constructBlock does; validator set and request state are observed from the implementation's own per-transaction pre-state (every prefix of each block is executed on the real ledger); the oracle re-derives counting/threshold rules from the property text."
+def gov(text, ref):
+    return ("exploration", "E1", "deterministic simulation: seeded operation histories on real ledgers, per-transaction pre/post-state observation, reference counting model", text, GOVNOTE, ref)
+checks.update({
+ "C08": gov("On every replica and for every committed block of sampled histories (0-12 cross-chain records per block, clean restarts), every record's served proof verifies against the block's committed cross-state root to exactly the stored record, the next header carries that root, and every (h<r) block proof verifies against header r's block root.", "5 C08"),
+ "C15": gov("Every failed transaction of sampled blocks (natural failures at many depths, incl. after writes and after the done-mark) leaves no writes, cross records or events; removing the failed transactions leaves the block's state digest unchanged; outcomes of earlier transactions are unchanged by later ones.", "5 C15"),
+ "C18": gov("Operator-only methods (commitDpos before due, updateConfig, blackChain, whiteChain) under 6 signing modes and all owner/approver/voter methods signed by a wrong key (10% of steps) must fail with no writes unless the required witness is present; operator address re-derived from the observed consensus set, across epochs.", "5 C18"),
+ "C20": gov("Per (source chain, cross-chain id) at most one acceptance over sampled vote-router histories with replay rounds (same and altered payload, across blocks, restarts and epochs); done mark appears exactly with acceptance (main-net rule; the test-net exemption in the code is honoured). Only the vote router is driven by this check.", "5 C20"),
+ "C21": gov("Imports whose source/destination is unregistered or blacklisted in the observed pre-state fail without writes; blacklist/whitelist take effect for later imports; interleavings with registration/quit and same-block list changes are sampled.", "5 C21"),
+ "C22": gov("Each accepted import stores exactly one request keyed (destination, relay tx hash), content = (relay tx hash, source chain, voted message), whose leaf hash is the single new cross-state leaf; rejected imports add neither.", "5 C22"),
+ "C25": gov("Votes (vote router) and collected signatures (signature manager): only observed consensus validators count, each once; release / quorum event exactly at the first vote reaching ceil(2N/3) distinct current validators, never again; N=4..8, epoch changes in between.", "5 C25/C32"),
+ "C32": gov("For all 8 consensus-approved methods the action takes effect iff the distinct witnessed approvers that are consensus validators in the pre-state reach ceil(2N/3); other actions/requests never count; N=4..8 changing over epochs.", "5 C25/C32"),
+ "C33": gov("After an approval takes effect its request is no longer pending and no later approval round applies it again without a fresh request (all request kinds, incl. remove->re-register->stale round).", "5 C33"),
+ "C34": gov("Pool invariants after every transaction (>=4 active, unique keys/indices, blacklisted keys cannot register) and epoch-change rules (view+1, active->consensus, quitting/black dropped, at most one per block) over sampled node-governance histories with timeouts reachable.", "5 C34"),
+ "C35": gov("The registered record of a chain changes only when an approval takes effect, equals the approved request, and updates/removals stem from a request by the registered owner of the current registration.", "5 C35"),
+})
 not_applicable = {
  "C03": "pure function of a list of hashes: no schedule, clock, fault, I/O or second party for a simulation to vary (DESIGN 5, not applicable)",
  "C28": "pure arithmetic on two headers; decided by differential testing or proof against the spec, not by schedules or faults",
